@@ -818,7 +818,7 @@ func TestVerif_C01_RecordShape(t *testing.T) {
 	_, shards := kit.Shard()
 	r := kit.NewResult(t, "c01-record-shape", seed, "seeded histories on a barrier over a probe store (transactional / plain store x root / namespace barrier x with / without seal-key record): puts through barrier, views, sub-views, transactions, view transactions, multi-write transactions and the Encryptor API, of empty / 1-byte / block-edge / binary / JSON / record-lookalike / large values, under format version 2 and legacy version 1, across key terms produced by Rotate, with RotateRootKey, CreateUpgrade and seal+unseal in between; after every put the stored bytes are opened with crypto/aes+cipher.NewGCM using the keyring recovered from the store with the root key: header term = active term, version as configured (2 by default), exact length, opens only with the storage key as additional data (not with empty / neighbouring / other keys, not under other term keys or the root key), no 8-byte plaintext fragment, fresh nonce; keyring and root-key records are opened with the root key / active key; at the end the whole store is audited. A record check is non-trivial when the value is non-empty; distinct = (config, how, version, term, value shape)")
 	defer r.Write(t)
-	nHist := kit.N(12, 360)
+	nHist := kit.N(12, 1200)
 	steps := kit.N(70, 160)
 	big := kit.N(64<<10, 1<<20)
 	for h := 0; h < nHist; h++ {
